@@ -66,6 +66,11 @@ func hasTransitionOps(evs []scripted.Event) (stage, transition bool) {
 // l2Cycles runs n real controller cycles and applies the C04 or C05 oracle.
 func l2Cycles(r *vk.Run, prop string) {
 	n := r.Pick(240, 2400)
+	// C05 runs extra indices that are all of the kind "halt-during-transition".
+	total := n
+	if prop == "C05" {
+		total = n + r.Pick(200, 1200)
+	}
 	workers := 1 // one Manager per process: the scripted world and the protocol handler are process-global
 	var wg sync.WaitGroup
 	var mu sync.Mutex
@@ -80,7 +85,7 @@ func l2Cycles(r *vk.Run, prop string) {
 				return
 			}
 			defer h.Close()
-			for i := w; i < n; i += workers {
+			for i := w; i < total; i += workers {
 				t, ok := l2Triple(nil, r, "l2-"+prop, i)
 				if !ok {
 					continue
@@ -101,6 +106,29 @@ func l2Cycles(r *vk.Run, prop string) {
 				var reported []rep
 				spec := scripted.CycleSpec{Ancestor: t.A, Alpha: t.Alpha, Beta: t.Beta, Mode: mode,
 					AlphaPreservesExecutability: true, BetaPreservesExecutability: true}
+				// Cycle kind "halt-during-transition" (C05 only, every third index, so
+				// that all four modes take part): while one side's (or both sides')
+				// Transition is in flight, Pause cancels the synchronization loop; the
+				// endpoint returns its scripted results - full, partial or none, nil
+				// error - only after it has seen that cancellation. What the endpoints
+				// reported must still be folded into the saved ancestor.
+				haltKind := ""
+				if prop == "C05" && (i%3 == 1 || i >= n) {
+					var sides []string
+					if len(plan.AlphaCh) > 0 {
+						sides = append(sides, "alpha")
+					}
+					if len(plan.BetaCh) > 0 {
+						sides = append(sides, "beta")
+					}
+					if len(sides) == 2 {
+						sides = append(sides, "both")
+					}
+					haltKind = sides[r.Rand(fmt.Sprintf("l2halt-%d", i)).Intn(len(sides))]
+					spec.HaltAlpha = haltKind == "alpha" || haltKind == "both"
+					spec.HaltBeta = haltKind == "beta" || haltKind == "both"
+					spec.HaltTimeout = 20 * time.Second
+				}
 				if prop == "C05" {
 					choice := map[string]*core.Entry{}
 					for _, c := range plan.AlphaCh {
@@ -167,28 +195,57 @@ func l2Cycles(r *vk.Run, prop string) {
 					}
 					continue
 				}
+				if haltKind != "" {
+					w["cycle_kind"] = "halt-during-transition:" + haltKind
+					w["gated_transitions"] = fmt.Sprint(res.GatedTransitions)
+					w["cancellations_observed"] = fmt.Sprint(res.CancellationsObserved)
+					if !res.HaltStarted {
+						// no Transition call reached the chosen side: an ordinary cycle
+						r.Count("l2_halt_cycles_without_transition_call", 1)
+						haltKind = ""
+					} else if res.CancellationsObserved < res.GatedTransitions {
+						// control timeout: the loop's context was never seen done
+						r.Inconclusive("cancellation-not-observed")
+						continue
+					} else if res.PauseErr != nil {
+						w["pause_error"] = res.PauseErr.Error()
+						r.Inconclusive("l2-pause-failed")
+						continue
+					} else {
+						r.Count("l2_cycles_halted_during_transition", 1)
+						r.Count("l2_cycles_halted_during_transition:"+haltKind, 1)
+						r.Count("l2_cycles_halted_during_transition:"+mode.String(), 1)
+						r.Count("l2_transitions_returning_after_observed_cancellation", int64(res.CancellationsObserved))
+					}
+				}
 				r.Eval(1)
 				mu.Lock()
 				done++
 				mu.Unlock()
 				r.Count("l2_real_controller_cycles", 1)
+				kindSig := func(m map[string]string) map[string]string {
+					if haltKind != "" {
+						m["cycle_kind"] = "halt-during-transition"
+					}
+					return m
+				}
 				arch := res.Archive.GetContent()
 				if err := arch.EnsureValid(true); err != nil {
-					r.Violation(map[string]string{"rule": "l2-archive-invalid", "mode": mode.String()}, "archive saved by the real controller is invalid: "+err.Error(), w)
+					r.Violation(kindSig(map[string]string{"rule": "l2-archive-invalid", "mode": mode.String()}), "archive saved by the real controller is invalid: "+err.Error(), w)
 					continue
 				}
 				repMu.Lock()
 				for _, x := range reported {
 					if !laws.DeepEq(gen.At(arch, x.path), x.res) {
 						w["archive_at_path"] = gen.Describe(gen.At(arch, x.path))
-						r.Violation(map[string]string{"rule": "l2-archive-unfaithful", "mode": mode.String()},
+						r.Violation(kindSig(map[string]string{"rule": "l2-archive-unfaithful", "mode": mode.String()}),
 							fmt.Sprintf("archive at %q is %s but the endpoint reported %s", x.path, gen.Describe(gen.At(arch, x.path)), gen.Describe(x.res)), w)
 					}
 				}
 				nrep := len(reported)
 				repMu.Unlock()
 				if nrep > 0 {
-					r.Distinct(fmt.Sprintf("l2|%s|%d", planSignature(plan), nrep))
+					r.Distinct(fmt.Sprintf("l2|%s|%d|%s", planSignature(plan), nrep, haltKind))
 				}
 				if prop == "C04" {
 					st, tr := hasTransitionOps(res.Next)
